@@ -179,6 +179,44 @@ def usability_layer(ctx, rng, quick):
         elif rc == 0 or "cycle" not in (o + e):
             ctx.report("cycle-not-reported", "a reference cycle that runs through the type argument of an imported generic type is not "
                        "reported (exit %d)" % rc, rep)
+    # two imported packages (and the root) define a type of the same simple name and refer to their own one without qualification
+    pk = {"sensor": ("Sensor", [], "Header: !record\n  fields:\n    id: int32\n\nFrame: !record\n  fields:\n    header: Header\n    data: float32*\n"),
+          "display": ("Display", [], "Header: !record\n  fields:\n    title: string\n\nPanel: !record\n  fields:\n    header: Header\n    w: uint16\n"),
+          "other": ("Other", [], "Lonely: int32\n")}
+    roots = {"app": "Header: !record\n  fields:\n    app: bool\n\nTop: !record\n  fields:\n    header: Header\n    f: Sensor.Frame\n    p: Display.Panel\n\nP: !protocol\n  sequence:\n    t: Top\n",
+             "app-unqualified-foreign": "Top: !record\n  fields:\n    l: Lonely\n    f: Sensor.Frame\n"}
+    for rname, rtext in roots.items():
+        for order in (["sensor", "display", "other"], ["display", "other", "sensor"], ["other", "display", "sensor"]):
+            base = os.path.join(ctx.scratch, "same_%s_%s" % (rname, "".join(o_[0] for o_ in order)))
+            for dname, (ns, imps, text) in pk.items():
+                os.makedirs(os.path.join(base, dname))
+                open(os.path.join(base, dname, "_package.yml"), "w").write("namespace: %s\n" % ns)
+                open(os.path.join(base, dname, "m.yml"), "w").write(text)
+            os.makedirs(base + "/root")
+            open(base + "/root/_package.yml", "w").write("namespace: App\nimports:\n" + "".join("  - ../%s\n" % o_ for o_ in order) + "json:\n  outputDir: ../outjson\n")
+            open(base + "/root/m.yml", "w").write(rtext)
+            rc, o, e = sh([ctx.yardl, "generate"], cwd=base + "/root", timeout=60)
+            rep = {"packages": {k_: v_[2] for k_, v_ in pk.items()}, "root": rtext, "import_order": order, "output": (o + e)[-500:]}
+            ctx.case(("same-name", rname, tuple(order)), nontrivial=True, sample={"crafted": rname, "import_order": order, "exit": rc})
+            if rname == "app-unqualified-foreign":
+                if rc == 0:
+                    ctx.report("foreign-type-resolved-unqualified", "an unqualified reference to a type that only an imported package defines "
+                               "(`Lonely`, defined in namespace Other) is accepted", rep)
+                continue
+            if rc != 0:
+                ctx.report("valid-graph-rejected", "yardl rejects packages that define types of the same simple name in different namespaces: "
+                           + (o + e)[-200:], rep)
+                continue
+            mj = json.load(open(base + "/outjson/model.json"))
+            want = {("Sensor", "Frame"): "Sensor.Header", ("Display", "Panel"): "Display.Header", ("App", "Top"): "App.Header"}
+            for ns_ in mj["namespaces"]:
+                for t_ in ns_.get("types", []):
+                    rec = t_.get("record")
+                    if rec and (ns_["name"], rec["name"]) in want:
+                        got = [f["type"] for f in rec["fields"] if f["name"] == "header"][0]
+                        if got != want[(ns_["name"], rec["name"])]:
+                            ctx.report("reference-resolved-to-other-namespace", "the unqualified reference `Header` in %s.%s is resolved to %s "
+                                       "(import order %s)" % (ns_["name"], rec["name"], got, order), dict(rep, record="%s.%s" % (ns_["name"], rec["name"]), resolved=got))
     for tree, (rc, out, imp) in zip(graphs, res):
         ctx.count("usability_graphs", "generated" if rc == 0 else "rejected")
         if rc != 0:
